@@ -27,7 +27,8 @@ def tla_seq(xs):
 
 BASES = ["for a in a ; do a ; done", "for a do a ; done", "for a \n in a a \n do a \n done", "if a ; then a ; elif a ; then a ; else a ; fi",
          "while a ; do a ; done", "until a \n do a \n done > a", "case a in a ) a ;; esac", "case a in ( a | a ) a ;; a ) esac",
-         "a ( ) { a ; }", "break ; a", "{ a ; } > a", "( a ) | ! a && a", "x=1 a > a 2> a &", "((1)) ; a", "! a | a || { a ; }", "if a ; then ( a ) fi"]
+         "a ( ) { a ; }", "break ; a", "{ a ; } > a", "( a ) | ! a && a", "x=1 a > a 2> a &", "((1)) ; a", "! a | a || { a ; }", "if a ; then ( a ) fi",
+         "{ if a ; then a ; elif a ; then a ; fi ; }", "( if a ; then a ; else a ; fi )", "while if a ; then a ; elif a ; then a ; else a ; fi ; do a ; done"]
 
 
 # the longest prefixes are enumerated over a smaller alphabet (one representative of each kind of token)
@@ -82,7 +83,7 @@ def check(R, cases, name):
 def run(R):
     R.rule = ("cases = token strings classified by ShellRec.tla: every viable prefix up to 3 tokens over a 33-token alphabet and up to 4 tokens over 24 of them ( words, "
               "assignment, all reserved words, all control operators, newline, redirections, (( ))) extended by one more token or by a "
-              "broken word; plus long accepted strings with all single-token deletions / duplications / swaps / insertions / substitutions, and the same mutations of 15 base programs (one per compound construct); "
+              "broken word; plus long accepted strings with all single-token deletions / duplications / swaps / insertions / substitutions, and the same mutations of 18 base programs (one per compound construct); "
               "distinct_nontrivial = distinct rejected or incomplete strings whose first offending token is not the first token")
     R.assumptions = ["ShellRec.tla's reading of XCU 2.10 (cross-validated at design time against dash -n and bash -n on all strings of "
                      "<= 3 tokens, and against the parser on 7 M strings: design-notes/)",
